@@ -12,7 +12,7 @@ import json
 import shutil
 from typing import Dict, Iterable, List, Set
 
-from . import bridge, common, drive_deser, replay_deser, tlc
+from . import bridge, common, drive_deser, record, replay_deser, tlc
 
 CLAUSES = {
     "C01": {"rejected-conforming", "accepted-nonconforming", "image"},
@@ -96,6 +96,9 @@ def run(prop: str, rep: common.Report, *, exotic: bool = False, coerce: bool = F
                               case_summary(c, out))
             else:
                 other += 1
+        if exotic:
+            swept, bad = exotic_sweep(rep, header, cases)
+            rep.add("exotic_sweep_calls", swept)
     bridge.cleanup_gen_dir()
     # ---- code -> spec
     wd = tlc.scratch_dir("verifdrv_")
@@ -141,6 +144,39 @@ def run(prop: str, rep: common.Report, *, exotic: bool = False, coerce: bool = F
     rep.set("mismatches_owned_by_other_properties", other)
     rep.set("exhaustive", False)
     rep.set("universe_tiers", tiers)
+
+
+def exotic_sweep(rep: common.Report, header: dict, cases: List[dict]):
+    """C03, systematically: every type of the tier x every non-JSON kind, alone and nested one level, strict and
+    coercing: the outcome is a value or a ValidationError, never another exception, and the input is untouched."""
+    import apischema.cache
+
+    types: dict = {}
+    for c in cases:
+        types.setdefault(json.dumps(c["type"], sort_keys=True), c["type"])
+    u = replay_deser.Universe(header, list(types.values()))
+    n = bad = 0
+    for key in sorted(types):
+        T = types[key]
+        apischema.cache.reset()
+        replay_deser.clear_typing_caches()
+        u._types.clear()
+        tp = u.type(T)
+        for kind in bridge.EXOTIC_KINDS:
+            for shape in ("alone", "list", "obj"):
+                for kwargs in ({}, {"coerce": True}):
+                    x = bridge.make_exotic(kind)
+                    data = x if shape == "alone" else [x] if shape == "list" else {"a": x}
+                    n += 1
+                    out = record.run_deserialize(u.ctx, tp, data, kwargs)
+                    if out["kind"] == "exc" or out.get("mutated"):
+                        bad += 1
+                        if bad <= 30:
+                            what = "input modified" if out.get("mutated") else f"raised {out['exc']}"
+                            rep.violation(f"exotic sweep [escape] deserialize({bridge.type_expr(T)}, <{kind} {shape}>, {kwargs}) {what}",
+                                          {"type": bridge.type_expr(T), "type_enc": T, "kind": kind, "shape": shape, "kwargs": kwargs,
+                                           "actual": out})
+    return n, bad
 
 
 def _ev_summary(e: dict, ctxs: List[dict]) -> dict:
